@@ -6,7 +6,11 @@ mod dagrepo;
 use jj_lib::backend::CommitId;
 use jj_lib::commit::Commit;
 use jj_lib::default_index::DefaultReadonlyIndex;
+use futures::StreamExt as _;
+use jj_lib::graph::GraphEdge;
 use jj_lib::graph::GraphEdgeType;
+use jj_lib::graph::TopoGroupedGraph;
+use jj_lib::graph::reverse_graph;
 use jj_lib::repo::Repo as _;
 use jj_lib::revset::ResolvedExpression;
 use pollster::FutureExt as _;
@@ -67,37 +71,60 @@ fn main() {
                     let ids: Vec<CommitId> = shown.iter().map(|&x| order[x].clone()).collect();
                     let expression = ResolvedExpression::Commits(ids);
                     let revset = index.evaluate_revset_impl(&expression, repo.store()).unwrap();
-                    let mut nodes: Vec<String> = vec![];
-                    for node in revset.iter_graph_impl(skip) {
-                        let (id, edges) = node.unwrap();
-                        let es: Vec<String> = edges
-                            .iter()
-                            .map(|e| {
-                                let k = match e.edge_type {
-                                    GraphEdgeType::Direct => {
-                                        stats.0 += 1;
-                                        "Direct"
-                                    }
-                                    GraphEdgeType::Indirect => {
-                                        stats.1 += 1;
-                                        "Indirect"
-                                    }
-                                    GraphEdgeType::Missing => {
-                                        stats.2 += 1;
-                                        "Missing"
-                                    }
-                                };
-                                format!("({}, {})", pos[&e.target], k)
-                            })
-                            .collect();
-                        stats.3 += 1;
-                        nodes.push(format!("({}, [{}])", pos[&id], es.join("; ")));
-                    }
+                    let raw: Vec<(CommitId, Vec<GraphEdge<CommitId>>)> =
+                        revset.iter_graph_impl(skip).map(|n| n.unwrap()).collect();
+                    let mut render = |list: &[(CommitId, Vec<GraphEdge<CommitId>>)], count: bool| -> String {
+                        let mut nodes: Vec<String> = vec![];
+                        for (id, edges) in list {
+                            let es: Vec<String> = edges
+                                .iter()
+                                .map(|e| {
+                                    let k = match e.edge_type {
+                                        GraphEdgeType::Direct => {
+                                            if count { stats.0 += 1; }
+                                            "Direct"
+                                        }
+                                        GraphEdgeType::Indirect => {
+                                            if count { stats.1 += 1; }
+                                            "Indirect"
+                                        }
+                                        GraphEdgeType::Missing => {
+                                            if count { stats.2 += 1; }
+                                            "Missing"
+                                        }
+                                    };
+                                    format!("({}, {})", pos[&e.target], k)
+                                })
+                                .collect();
+                            if count { stats.3 += 1; }
+                            nodes.push(format!("({}, [{}])", pos[id], es.join("; ")));
+                        }
+                        format!("[{}]", nodes.join("; "))
+                    };
+                    let stream_s = render(&raw, true);
+                    // the adapters `jj log` puts on top of the stream
+                    let topo: Vec<(CommitId, Vec<GraphEdge<CommitId>>)> = TopoGroupedGraph::new(
+                        futures::stream::iter(raw.clone().into_iter().map(Ok::<_, std::convert::Infallible>)),
+                        |id: &CommitId| id,
+                    )
+                    .stream()
+                    .map(|n| n.unwrap())
+                    .collect::<Vec<_>>()
+                    .block_on();
+                    let reversed = reverse_graph(
+                        raw.clone().into_iter().map(Ok::<_, std::convert::Infallible>),
+                        |id: &CommitId| id,
+                    )
+                    .unwrap();
+                    let topo_s = render(&topo, false);
+                    let rev_s = render(&reversed, false);
                     walks.push(format!(
-                        "(mk_walk {} {} [{}])",
+                        "(mk_walk {} {} {} (Some {}) (Some {}))",
                         dagrepo::coq_nats(&shown),
                         jjv::coq::b(skip),
-                        nodes.join("; ")
+                        stream_s,
+                        topo_s,
+                        rev_s
                     ));
                 }
                 (g, walks, stats)
